@@ -1,3 +1,40 @@
-From HV Require Import Base.Prelude.
-Theorem C13_placeholder : True. Proof. exact I. Qed.
-Print Assumptions C13_placeholder.
+(* C13 - resize keeps retained data, zero-fills new space (unit level: what the reader returns for
+   chunks written under the old extents when the dataspace says new extents).
+   Model: Model/Chunk.v.  Lemmas: Proofs/ChunkTiling.v.  Examples: Proofs/ChunkExamples.v. *)
+From HV Require Import Base.Prelude Model.Chunk
+  Proofs.ChunkLists Proofs.ChunkSpec Proofs.ChunkCoords Proofs.ChunkTiling Proofs.ChunkExamples.
+
+(* the specification function behaves as the property text says *)
+Theorem C13_resize_spec_laws : forall esz,
+  (forall d x, lenN x = vol d esz -> resize_arr d d esz x = x) /\
+  (forall old new data ix, length new = length old -> lenN data = vol old esz ->
+     in_extent new ix = true ->
+     get_elem new esz (resize_arr old new esz data) ix
+     = if in_extent old ix then get_elem old esz data ix else zerosN esz).
+Proof. exact (fun esz => conj (resize_arr_id esz) (get_resize_arr esz)). Qed.
+Print Assumptions C13_resize_spec_laws.
+
+(* one resize after a full write, any mix of growing and shrinking dimensions *)
+Theorem C13_read_after_resize : forall old new cdims esz data,
+  shape_ok old cdims esz -> length new = length old -> lenN data = vol old esz ->
+  read_after_resize old new cdims esz data = Ok (resize_arr old new esz data).
+Proof. exact read_after_resize_correct. Qed.
+Print Assumptions C13_read_after_resize.
+
+(* two resizes without a write in between are right when no intermediate extent is below both *)
+Theorem C13_read_after_two_resizes_partial : forall old mid new cdims esz data,
+  shape_ok old cdims esz -> mid_covers old mid new -> lenN data = vol old esz ->
+  read_after_resize old new cdims esz data = Ok (resize_twice_spec old mid new esz data).
+Proof. exact read_after_two_resizes. Qed.
+Print Assumptions C13_read_after_two_resizes_partial.
+
+(* shrink then grow exposes the data that was cut off: dims [8], chunk [4], data 1..8,
+   resize to [3], resize to [7] *)
+Theorem C13_shrink_grow_refuted :
+  exists old mid new cdims esz data,
+    shape_ok old cdims esz /\ length mid = length old /\ length new = length old /\
+    lenN data = vol old esz /\
+    read_after_resize old new cdims esz data = Ok [1; 2; 3; 4; 5; 6; 7] /\
+    resize_twice_spec old mid new esz data = [1; 2; 3; 0; 0; 0; 0].
+Proof. exact shrink_grow_refuted. Qed.
+Print Assumptions C13_shrink_grow_refuted.
